@@ -15,6 +15,12 @@ if ROUND == '1':
     SRC = '/tmp/seed_%s/out'
     NAME = '%s_%d'
     LOGPREFIX = 'out/patch'
+elif ROUND == '8':
+    PAIRS = [('/tmp/seed8_batch.sh', '/tmp/seedrun8.log'), ('/tmp/seed8_batch2.sh', '/tmp/seedrun8b.log')]
+    CONF = '/tmp/confirm_seeds8.log'
+    SRC = '/tmp/seedout8_%s'
+    NAME = '%s_r8_%d'
+    LOGPREFIX = 'seedout8_'
 elif ROUND == '7':
     PAIRS = [('/tmp/seed7_batch.sh', '/tmp/seedrun7.log'), ('/tmp/seed7_batch2.sh', '/tmp/seedrun7b.log')]
     CONF = '/tmp/confirm_seeds7.log'
